@@ -215,23 +215,23 @@ Section Proofs.
   Qed.
 
   (* ---- the scans ---- *)
-  Lemma fwd_scan_S k a ys : fwd_scan N tr ob (S k) a ys = fwd_scan N tr ob 1 a ys.
+  Lemma fwd_scan_S s k a ys : fwd_scan_with N ob s (S k) a ys = fwd_scan_with N ob s 1 a ys.
   Proof.
     revert k a. induction ys as [|y r IH]; intros k a; [reflexivity|].
-    cbn [fwd_scan Nat.eqb]. f_equal. now rewrite (IH (S k)), (IH 1%nat).
+    cbn [fwd_scan_with Nat.eqb]. f_equal. now rewrite (IH (S k)), (IH 1%nat).
   Qed.
 
-  Lemma length_fwd_scan ys : forall k a, length (fwd_scan N tr ob k a ys) = length ys.
+  Lemma length_fwd_scan s ys : forall k a, length (fwd_scan_with N ob s k a ys) = length ys.
   Proof. induction ys as [|y r IH]; intros k a; simpl; [reflexivity | now rewrite IH]. Qed.
 
-  Lemma last_fwd_scan ys : forall a, last (fwd_scan N tr ob 1 a ys) a = grun (fun i j => T i j) a ys.
+  Lemma last_fwd_scan t ys : forall a, last (fwd_scan_with N ob (gstep N ob t) 1 a ys) a = grun t a ys.
   Proof.
     induction ys as [|y r IH]; intros a; [reflexivity|].
-    cbn [fwd_scan Nat.eqb]. rewrite last_cons, fwd_scan_S. apply IH.
+    cbn [fwd_scan_with Nat.eqb grun]. rewrite last_cons, fwd_scan_S. apply IH.
   Qed.
 
-  Lemma alphas_cons y ys :
-    alphas N pr tr ob (y :: ys) = alpha_init N ob pr y :: fwd_scan N tr ob 1 (alpha_init N ob pr y) ys.
+  Lemma alphas_cons s y ys :
+    alphas_with N pr ob s (y :: ys) = alpha_init N ob pr y :: fwd_scan_with N ob s 1 (alpha_init N ob pr y) ys.
   Proof. reflexivity. Qed.
 
   Lemma tfp_fwd_grun ys : forall a, tfp_fwd N tr ob a ys = grun (fun i j => T j i) a ys.
@@ -240,11 +240,11 @@ Section Proofs.
   Lemma vget_alpha_init y i : (i < N)%nat -> vget (alpha_init N ob pr y) i = O i y * vget pr i.
   Proof. intros. unfold alpha_init. now rewrite vget_tab. Qed.
 
-  (* what the forward pass of the code sums to: the likelihood of the chain whose weight of
-     moving p -> x is transition_n[x, p] *)
-  Lemma forward_sum_code y ys :
-    qsum (last (alphas N pr tr ob (y :: ys)) []) =
-    sumN N (fun x => vget pr x * O x y * gbeta (fun p x => T x p) x ys).
+  (* what a forward pass with contraction weight t sums to: the likelihood of the chain whose
+     weight of moving p -> x is t x p *)
+  Lemma forward_sum_gen t y ys :
+    qsum (last (alphas_with N pr ob (gstep N ob t) (y :: ys)) []) =
+    sumN N (fun x => vget pr x * O x y * gbeta (fun p x => t x p) x ys).
   Proof.
     rewrite alphas_cons, last_cons, last_fwd_scan, grun_beta by apply length_tab.
     apply sumN_ext; intros i Hi. rewrite vget_alpha_init by exact Hi. ring.
@@ -255,12 +255,12 @@ Section Proofs.
   Lemma symmetric_Sym : symmetric N tr = true -> Sym.
   Proof. intros H i j Hi Hj. apply Qc_eqb_eq. exact (all2_spec _ _ _ H i j Hi Hj). Qed.
 
-  Lemma forward_sum y ys : symmetric N tr = true ->
+  (* the (repaired) forward pass sums to the marginal likelihood, for every table *)
+  Lemma forward_sum y ys :
     qsum (last (alphas N pr tr ob (y :: ys)) []) = marginal N pr tr ob (y :: ys).
   Proof.
-    intros H. apply symmetric_Sym in H. rewrite forward_sum_code, marginal_beta.
-    apply sumN_ext; intros x Hx. f_equal. apply gbeta_ext; [|exact Hx].
-    intros p z Hp Hz. now apply H.
+    unfold alphas, alpha_step. rewrite forward_sum_gen, marginal_beta.
+    apply sumN_ext; intros x Hx. reflexivity.
   Qed.
 
   (* ---- data_logpdf ---- *)
@@ -437,9 +437,9 @@ Section Proofs.
       rewrite bridge' by (rewrite !rev_length; lia). simpl. ring.
     Qed.
 
-    Lemma qh_main (HS : Sym) ys : forall a x xr, length a = N -> posv a -> (x < N)%nat ->
+    Lemma qh_main ys : forall a x xr, length a = N -> posv a -> (x < N)%nat ->
       in_range N xr = true -> in_range M ys = true -> length xr = length ys ->
-      qh (map normalise (a :: fwd_scan N tr ob 1 a ys)) (x :: xr) * qsum (grun (fun i j => T i j) a ys)
+      qh (map normalise (a :: fwd_scan_with N ob (alpha_step N tr ob) 1 a ys)) (x :: xr) * qsum (grun (fun i j => T j i) a ys)
       = vget a x * jtail tr ob x xr ys.
     Proof.
       induction ys as [|y r IH]; intros a x xr Hl Ha Hx Hxr Hys Hlen.
@@ -448,48 +448,48 @@ Section Proofs.
       - destruct xr as [|x' xr']; simpl in Hlen; [discriminate|].
         apply in_range_cons in Hxr. destruct Hxr as [Hx' Hxr'].
         apply in_range_cons in Hys. destruct Hys as [Hy Hr].
-        cbn [fwd_scan Nat.eqb grun jtail]. rewrite fwd_scan_S.
+        cbn [fwd_scan_with Nat.eqb grun jtail]. rewrite fwd_scan_S.
         set (a' := alpha_step N tr ob a y).
-        change (gstep N ob (fun i j => T i j) a y) with a'.
+        change (gstep N ob (fun i j => T j i) a y) with a'.
         assert (Hl' : length a' = N) by apply length_tab.
         assert (Ha' : posv a') by (apply posv_step; assumption).
         specialize (IH a' x' xr' Hl' Ha' Hx' Hxr' Hr ltac:(lia)).
-        change (qh (map normalise (a :: a' :: fwd_scan N tr ob 1 a' r)) (x :: x' :: xr'))
-          with (vget (bwd_dist N tr 1 x' (normalise a)) x * qh (map normalise (a' :: fwd_scan N tr ob 1 a' r)) (x' :: xr')).
+        change (qh (map normalise (a :: a' :: fwd_scan_with N ob (alpha_step N tr ob) 1 a' r)) (x :: x' :: xr'))
+          with (vget (bwd_dist N tr 1 x' (normalise a)) x * qh (map normalise (a' :: fwd_scan_with N ob (alpha_step N tr ob) 1 a' r)) (x' :: xr')).
         rewrite <- Qcmult_assoc, IH.
         assert (E : vget a' x' = O x' y * sumN N (fun j => vget a j * T j x')).
-        { unfold a', alpha_step, gstep. rewrite vget_tab by exact Hx'. f_equal.
-          apply sumN_ext; intros j Hj. now rewrite (HS x' j). }
+        { unfold a', alpha_step, gstep. now rewrite vget_tab by exact Hx'. }
         rewrite E.
         transitivity (vget (bwd_dist N tr 1 x' (normalise a)) x * sumN N (fun j => vget a j * T j x')
                       * (O x' y * jtail tr ob x' xr' r)); [ring|].
         rewrite cond_eq by assumption. ring.
     Qed.
 
-    Theorem ffbs_is_posterior y ys xs : symmetric N tr = true ->
+    Theorem ffbs_is_posterior y ys xs :
       in_range N xs = true -> in_range M (y :: ys) = true -> length xs = S (length ys) ->
       ffbs_pmf N pr tr ob (y :: ys) xs = posterior N pr tr ob xs (y :: ys).
     Proof.
-      intros Hsym Hxs Hys Hlen.
+      intros Hxs Hys Hlen.
       destruct xs as [|x xr]; simpl in Hlen; [discriminate|].
       apply in_range_cons in Hxs. destruct Hxs as [Hx Hxr].
       assert (Hys' := Hys). apply in_range_cons in Hys'. destruct Hys' as [Hy Hr].
-      unfold ffbs_pmf, filters. rewrite alphas_cons.
+      unfold ffbs_pmf, ffbs_pmf_with, filters_with. rewrite alphas_cons.
       set (a1 := alpha_init N ob pr y).
       rewrite bridge; [| discriminate | simpl; now rewrite map_length, length_fwd_scan, Hlen ].
       assert (Hm : marginal N pr tr ob (y :: ys) <> 0) by (apply Qc_pos_neq, marginal_pos; exact Hys).
-      assert (E := qh_main (symmetric_Sym Hsym) ys a1 x xr (length_tab _ _) (posv_init y Hy) Hx Hxr Hr ltac:(lia)).
-      assert (F := forward_sum y ys Hsym). rewrite alphas_cons, last_cons, last_fwd_scan in F. fold a1 in F.
+      assert (E := qh_main ys a1 x xr (length_tab _ _) (posv_init y Hy) Hx Hxr Hr ltac:(lia)).
+      assert (F := forward_sum y ys). unfold alphas, alpha_step in F.
+      rewrite alphas_cons, last_cons, last_fwd_scan in F. fold a1 in F.
       rewrite F in E. unfold posterior.
       assert (J : joint pr tr ob (x :: xr) (y :: ys) = vget a1 x * jtail tr ob x xr ys).
       { unfold a1. rewrite vget_alpha_init by exact Hx. simpl. ring. }
       rewrite J, <- E. field. exact Hm.
     Qed.
 
-    Theorem ffbs_normalised y ys : symmetric N tr = true -> in_range M (y :: ys) = true ->
+    Theorem ffbs_normalised y ys : in_range M (y :: ys) = true ->
       qsum (map (fun xs => ffbs_pmf N pr tr ob (y :: ys) xs) (seqs N (length (y :: ys)))) = 1.
     Proof.
-      intros Hsym Hys.
+      intros Hys.
       rewrite <- (posterior_normalised (y :: ys)) by (apply Qc_pos_neq, marginal_pos; exact Hys).
       apply qsum_map_ext. intros xs Hin. apply ffbs_is_posterior; auto.
       - exact (seqs_in_range _ _ Hin).
@@ -499,15 +499,41 @@ Section Proofs.
 End Proofs.
 
 (* ------------------------------------------------------------------ *)
-(* what the forward pass computes when the transition table is not symmetric *)
+(* the forward pass BEFORE the repair F37 (alpha_step_transposed) *)
 Lemma mget_transpose n m i j : (i < n)%nat -> (j < n)%nat -> mget (transpose n m) i j = mget m j i.
 Proof. intros Hi Hj. unfold transpose, mget at 1. rewrite nth_tab by exact Hi. now rewrite nth_tab. Qed.
 
+(* it summed to the likelihood of the chain with the TRANSPOSED transition table *)
 Lemma forward_sum_transposed N pr tr ob y ys :
-  qsum (last (alphas N pr tr ob (y :: ys)) []) = marginal N pr (transpose N tr) ob (y :: ys).
+  qsum (last (alphas_transposed N pr tr ob (y :: ys)) []) = marginal N pr (transpose N tr) ob (y :: ys).
 Proof.
-  rewrite forward_sum_code, marginal_beta. apply sumN_ext; intros x Hx. f_equal.
+  unfold alphas_transposed, alpha_step_transposed.
+  rewrite forward_sum_gen, marginal_beta. apply sumN_ext; intros x Hx. f_equal.
   apply gbeta_ext; [|exact Hx]. intros p z Hp Hz. now rewrite mget_transpose.
+Qed.
+
+(* on a symmetric table it coincided with the repaired one *)
+Lemma gstep_ext N ob t t' a y : (forall i j, (i < N)%nat -> (j < N)%nat -> t i j = t' i j) ->
+  gstep N ob t a y = gstep N ob t' a y.
+Proof.
+  intros H. unfold gstep, tab. apply map_ext_in. intros i Hi. apply in_seq in Hi. f_equal.
+  apply sumN_ext. intros j Hj. rewrite H; auto. lia.
+Qed.
+
+Lemma fwd_scan_with_ext N ob s s' : (forall a y, s a y = s' a y) ->
+  forall ys k a, fwd_scan_with N ob s k a ys = fwd_scan_with N ob s' k a ys.
+Proof.
+  intros H. induction ys as [|y r IH]; intros k a; [reflexivity|].
+  cbn [fwd_scan_with]. rewrite H, IH. reflexivity.
+Qed.
+
+Lemma transposed_agrees_when_symmetric N pr tr ob ys xs : symmetric N tr = true ->
+  ffbs_pmf_transposed N pr tr ob ys xs = ffbs_pmf N pr tr ob ys xs.
+Proof.
+  intros H. apply symmetric_Sym in H.
+  unfold ffbs_pmf_transposed, ffbs_pmf, ffbs_pmf_with, filters_with, alphas_with.
+  rewrite (fwd_scan_with_ext N ob (alpha_step_transposed N tr ob) (alpha_step N tr ob)); [reflexivity|].
+  intros a y. unfold alpha_step_transposed, alpha_step. apply gstep_ext. intros i j Hi Hj. now apply H.
 Qed.
 
 (* ------------------------------------------------------------------ *)
@@ -517,26 +543,28 @@ Definition w_sym : list (list Qc) := qm [[2 # 3; 1 # 3]; [1 # 3; 2 # 3]]%Q.
 Definition w_asym : list (list Qc) := qm [[2 # 3; 1 # 3]; [1 # 5; 4 # 5]]%Q.
 Definition w_ob : list (list Qc) := qm [[1 # 2; 1 # 2]; [1 # 10; 9 # 10]]%Q.
 
+(* the hypotheses are satisfiable, on an ASYMMETRIC table *)
 Lemma hyps_nonvacuous :
-  positive 2 w_pr w_sym w_ob 2 = true /\ row_stochastic 2 w_pr w_sym w_ob 2 = true /\
-  symmetric 2 w_sym = true /\ in_range 2 [1; 0; 1]%nat = true /\ in_range 2 [0; 1; 1]%nat = true /\
-  marginal 2 w_pr w_sym w_ob [1; 0; 1]%nat <> 0 /\
-  ffbs_pmf 2 w_pr w_sym w_ob [1; 0; 1]%nat [0; 1; 1]%nat = Q2Qc (15 # 812).
+  positive 2 w_pr w_asym w_ob 2 = true /\ row_stochastic 2 w_pr w_asym w_ob 2 = true /\
+  symmetric 2 w_asym = false /\ in_range 2 [1; 0; 1]%nat = true /\ in_range 2 [0; 1; 1]%nat = true /\
+  marginal 2 w_pr w_asym w_ob [1; 0; 1]%nat <> 0 /\
+  ffbs_pmf 2 w_pr w_asym w_ob [1; 0; 1]%nat [0; 1; 1]%nat = Q2Qc (675 # 26288).
 Proof.
   repeat split; try (vm_compute; reflexivity).
   - apply Qc_eqb_false. vm_compute. reflexivity.
   - apply Qc_is_canon. vm_compute. reflexivity.
 Qed.
 
-(* outside the symmetric region the sampler's law is NOT the posterior (and the forward pass
-   does not sum to the data likelihood), although every table is positive and row-stochastic *)
-Lemma ffbs_refuted :
+(* what the repair fixed: with the transposed forward pass the sampler's law is NOT the posterior
+   (and the forward pass does not sum to the data likelihood) on an asymmetric table, although
+   every table is positive and row-stochastic *)
+Lemma ffbs_transposed_refuted :
   exists N M pr tr ob ys xs,
     positive N pr tr ob M = true /\ row_stochastic N pr tr ob M = true /\
     in_range M ys = true /\ in_range N xs = true /\ length xs = length ys /\
     symmetric N tr = false /\
-    ffbs_pmf N pr tr ob ys xs <> posterior N pr tr ob xs ys /\
-    qsum (last (alphas N pr tr ob ys) []) <> marginal N pr tr ob ys.
+    ffbs_pmf_transposed N pr tr ob ys xs <> posterior N pr tr ob xs ys /\
+    qsum (last (alphas_transposed N pr tr ob ys) []) <> marginal N pr tr ob ys.
 Proof.
   exists 2%nat, 2%nat, w_pr, w_asym, w_ob, [1; 0; 1]%nat, [0; 1; 1]%nat.
   repeat split; try (vm_compute; reflexivity); apply Qc_eqb_false; vm_compute; reflexivity.
@@ -591,7 +619,7 @@ Proof. induction rffs as [|ff r IH]; intros k p; simpl; [reflexivity | now rewri
 
 Lemma length_ffbs_sample N pr tr ob choose ys : length (ffbs_sample N pr tr ob choose ys) = length ys.
 Proof.
-  unfold ffbs_sample, filters, alphas.
+  unfold ffbs_sample, filters, filters_with, alphas_with.
   now rewrite rev_length, length_bwd_scan, rev_length, map_length, length_fwd_scan.
 Qed.
 
